@@ -433,6 +433,13 @@ impl<'p> CoroutinePool<'p> {
             if CANCEL_TASKS.contains(&task_id) {
                 _ = CANCEL_TASKS.remove(&task_id);
                 warn!("Cancel task:{} successfully !", task_id);
+                // the task will never run, settle whoever waits for it
+                if self.no_waits.remove(&task_id).is_none() {
+                    _ = self
+                        .results
+                        .insert(task_id, Err("The task has been cancelled"));
+                    self.notify(task_id);
+                }
                 return;
             }
             if let Some(co) = SchedulableCoroutine::current() {
